@@ -36,6 +36,26 @@ CLAIMS = {
             "DESIGN.md section 9 C16",
             TB + "; D_k(E_k(x)) = x taken from FIPS-197 (per-round lemmas proved); adapter proofs bounded in data length",
             "deductive: AST->VC (BV, loop contracts, uninterpreted S-box) + ground evaluation of tables, z3"),
+    "C03": ("proof",
+            "writer = documented layout for EVERY file: loop contracts on the real Bf3File.dir_to_binary (component loop and "
+            "tag loop over abstract collections of symbolic length; invariant directory == BigConcat of spec entries, running "
+            "address == offset + sum of stored lengths) and to_binary (two-pass address computation, directory size "
+            "independent of address and key, payloads contiguous to end of file); MACs/ciphertexts through the C16 adapter "
+            "contract; concrete mode compares the real writer byte for byte with the independent serialiser and parser of "
+            "spec/layout.py using the independent AES of spec/aes197.py; BEC2 header and 80-column hex text: bounded monitor",
+            "DESIGN.md section 9 C03",
+            TB + "; get_raw_data by contract (C06); dict iteration order; lemmas on sums of element lengths (induction, "
+                 "not machine-checked)",
+            "deductive: AST->VC with loop contracts over BigConcat ropes / abstract lists, z3; bounded monitor underneath"),
+    "C01": ("proof",
+            "the real reader (dir_from_binary, from_binary, BytesReader) is run on the rope layout(f) that C03 proves the "
+            "writer emits, for the abstract file f (any number of plain components and tags, any contents, key, offset, MAC "
+            "check on/off): three loop contracts with ghost counters (cursor on element boundary, decoded prefix, variant) "
+            "give: the reader accepts and returns exactly f.  Text envelope (comments, CRLF, path I/O): bounded monitor on "
+            "the real write_file/read_file",
+            "DESIGN.md section 9 C01",
+            TB + "; io.BytesIO model (short reads, seek/tell); the writer accepted f (length fields fit); plain components",
+            "deductive: AST->VC, loop contracts with ghost state over BigConcat ropes, z3; bounded monitor for the text layer"),
 }
 
 NA_DEFAULT = "check not built yet (construction in progress, see DESIGN.md section 14)"
